@@ -26,7 +26,7 @@ COORDS = {
     "frac": [(0.3, 0.7), (1.0, 0.0), (0.0, 1.0), (0.0, 0.0)],
     "angle": [("c", 1.0)] + [("c", a) for a in LADDER if a != 1.0] + [("c", -a) for a in LADDER if a] +
              [("n", 0.0), ("n", 1.0), ("n", -2.0), ("n", 20.0), ("abs", 0.0), ("abs", math.pi / 2), ("abs", math.pi)],
-    "R": [100.0, 1.0, 1024.0],
+    "R": [100.0, 1.0, 1024.0, 0.25],
     "depth": [-1000.0, -10.0, -200.0, -2800.0],
     "N": [256, 257, 1024],
     "dt": [2.0 ** -34, 2.0 ** -36],
@@ -181,17 +181,17 @@ def _point(case):
     for s in (1024, 2 ** 24):
         cmp("joint-shift", run(goff=v["goff"] + s), v0, "grid and t0 shifted together by %d samples" % s)
     # whole-sample shift of the shower time only
-    k = 5
-    r = run(t0=v["t0"] + k)
-    if r[0] == "exc":
-        fail("sample-shift", "t0 + %d samples raised %s" % (k, r[1]))
-    else:
-        got, want = r[1][k:], v0[:-k]
-        # the pulse content that leaves through the end of the window is dropped; compare the overlap
-        if not np.all(np.abs(got - want) <= tol):
-            bad = int(np.argmax(np.abs(got - want)))
-            fail("sample-shift", "t0 moved by %d samples: values are not the old ones moved by %d samples (diff %.3g at %d, peak %.3g)"
-                 % (k, k, float(np.max(np.abs(got - want))), bad, peak))
+    for k in (5, 64):
+        r = run(t0=v["t0"] + k)
+        if r[0] == "exc":
+            fail("sample-shift", "t0 + %d samples raised %s" % (k, r[1]))
+        else:
+            got, want = r[1][k:], v0[:-k]
+            # the pulse content that leaves through the end of the window is dropped; compare the overlap
+            if not np.all(np.abs(got - want) <= max(tol, 1e-10 * float(np.max(np.abs(r[1]))))):
+                bad = int(np.argmax(np.abs(got - want)))
+                fail("sample-shift", "t0 moved by %d samples: values are not the old ones moved by %d samples (diff %.3g at %d, peak %.3g)"
+                     % (k, k, float(np.max(np.abs(got - want))), bad, peak))
     return {"n": n, "nontrivial": ["%s|%s" % (model, sorted(cfg.items()))] if peak > 0 else [], "fails": fails,
             "stats": {"pulses": n}, "sample": {"model": model, "config": {k_: str(x) for k_, x in v.items()}}}
 
